@@ -17,6 +17,15 @@ CHECKS = {
             'text->address denotation uses the standard library (inet_aton/inet_pton/ipaddress) as independent oracle; names go '
             'through a scripted resolver; requests is replaced by a recorder; catalogue is finite.',
             'TLA+ decision model checked by TLC + exhaustive case replay with TLC trace validation', '6.7'),
+    'C18': ('expiry', 'model_checking',
+            'Expiration.tla models the two batch loops of the policy (unordered age query returning any batch-sized subset, ordered '
+            'count query) and TLC proves algorithm == declarative expectation, never-unfinished, no-newer-while-older and termination '
+            'for every population of <=3 (thorough 4) roots x 54 configurations; the same product is materialised as real rows with '
+            'real cascade foreign keys, the real policy runs once per case, deletions are observed at SQL level and TLC judges every '
+            'observation with the property formulas and checks the batches are a behaviour of the model.',
+            'sqlite stands in for MySQL/PostgreSQL; update times distinct; an under-deletion or crash is reported as divergence, not '
+            'as violation (the property says "only").',
+            'TLA+ algorithm-vs-expectation model checked by TLC + exhaustive case replay on real rows with TLC trace validation', '6.3'),
 }
 
 NOT_YET = 'check not built yet (build in progress; see DESIGN.md section 12)'
